@@ -34,7 +34,7 @@ func record(c Case, fault *FaultSpec) (*recording, *DBH, *Recorder, error) {
 	dir := newDir("rec")
 	rec := StartRecorder(dir)
 	rec.Fault = fault
-	rc := &recording{Dir: dir, Tx: map[int]*txInfo{}, U: UniverseOf(c), OO: obsFor(c.Cfg)}
+	rc := &recording{Dir: dir, Tx: map[int]*txInfo{}, U: UniverseOf(c), OO: obsForCase(c, nil)}
 	rec.Mark("open-begin")
 	h, err := OpenDB(dir, c.Cfg)
 	if err != nil {
